@@ -261,7 +261,7 @@ def l_r3_datetime(p: Project, rep: Report):
             if consts.startswith(".[") or (consts[:1] == "." and "[" in consts and consts.endswith("]")):
                 spec = text(fvs[1].format_spec) if len(fvs) > 1 and fvs[1].format_spec is not None else ""
                 first = text(fvs[0].value) if fvs else ""
-                ok = "03d" in spec and f".strftime({fparams[0]})" in first
+                ok = spec.lstrip("f").strip("'\"") in ("03d", "03", "0>3d", "0>3", "0=3d", "0=3") and f".strftime({fparams[0]})" in first
                 why = f"milliseconds format {spec!r}, date part {first[:50]}"
         if ok is None:
             rep.note(f"L-R3 undecided: format_datetime returns {rtxt[:80]}")
